@@ -148,13 +148,19 @@ def expected_env(s):
     return ["ok", v]
 
 
-def summary_stage(out, tier):
+def summary_stage(out, tier, replay=None):
     """'each fraction is classified on its own' is also visible in the yearly summary: its LONG and SHORT lines must split
     a disposal that spans lots on both sides of the threshold.  The windowed runs of the L4 layer (shared, cached) are
     judged with flags recomputed here from the two instants of every fraction."""
     from harness import hist, l4, oracle
     from harness.props.c09 import dates_monotone
-    data = l4.run(tier)
+    if replay is not None:
+        core.impl_env_setup()
+        c0, f0, t0 = replay["case"], replay.get("from"), replay.get("to")
+        data = {"jobs": [[0, f0, t0]], "impl": [hist.impl_compute(c0, from_day=f0, to_day=t0)],
+                "base": {"cases": [c0], "impl": [hist.impl_compute(c0)]}}
+    else:
+        data = l4.run(tier)
     base = data["base"]
     n = 0
     for (idx, f, t), i in zip(data["jobs"], data["impl"]):
@@ -193,6 +199,11 @@ def summary_stage(out, tier):
 def run(tier, build, replay=None):
     out = core.Outcome("C05", tier)
     proofs = core.check_proofs(build, "C05.v")
+    if replay and "case" in replay and "ins" in replay["case"]:       # replay of a windowed run of the summary stage
+        n = summary_stage(out, tier, replay)
+        core.proofs_verdict(out, proofs, build, "C05.v")
+        out.coverage.update({"evaluations": n, "distinct_nontrivial": n, "rule": "replay of a windowed run (summary split)"})
+        return out.finish(proofs, build)
     rng = core.Rng(core.seed(), 5)
     n = 10000 if tier == "quick" else 120000
     cases = [replay] if replay else gen_cases(rng, n)
